@@ -10,8 +10,11 @@ import UnifexModel.Proto.StopOnRequest
 namespace Unifex.Driver.Entries
 open Unifex.Proto
 
+/-- `r_race` / `r_early` are the C++20 scenarios that reach `cancellable<>` through
+    `create_raw_sender` + `_lambda_op`: the same configurations as `c_race` / `c_early`. -/
 def cancellable : ModelEntries :=
-  ("cancellable", Cancellable.configs.map (fun (n, c) =>
+  ("cancellable",
+    (Cancellable.configs ++ [("r_race", Cancellable.cfgRace), ("r_early", Cancellable.cfgEarly)]).map (fun (n, c) =>
       (n, mkEntry (Cancellable.sys c) Cancellable.obsOf (Cancellable.final c))))
 
 def detachoncancel : ModelEntries :=
